@@ -1,6 +1,7 @@
 import MosnVerif.Drive.Downstream
 import MosnVerif.Drive.DownstreamMC
 import MosnVerif.Model.DownstreamSpec
+import MosnVerif.Model.DownstreamBackoff
 /-!
 C03 driver.  `A` = the model's trace, ledger and done flag equal the implementation's, token for token.
 `Spec` (about the IMPLEMENTATION's output, written against the declarative sender automaton of DownstreamSpec and the
@@ -131,9 +132,71 @@ def upfRun (caseToks impl : List String) : String :=
     | none => "E E bad-upf"
   | _, _ => "E E bad-upf"
 
+/-- [proxy9] a `terminate during the back-off` token: (the label that makes the proxy give attempt k up for a retry, k, code)
+  XT<k>:<reason>:<code>   PTT<k>:<code>   RT<k>:<status>:<d><t>:<code> -/
+def tbToken (tok : String) : Option (Label × Nat × Nat) :=
+  if tok.startsWith "XT" then
+    match (dropS tok 2).splitOn ":" with
+    | [k, r, code] => do pure (.upReset (← k.toNat?) (← reasonOfName r), ← k.toNat?, ← code.toNat?)
+    | _ => none
+  else if tok.startsWith "PTT" then
+    match (dropS tok 3).splitOn ":" with
+    | [k, code] => do pure (.perTryFire, ← k.toNat?, ← code.toNat?)
+    | _ => none
+  else if tok.startsWith "RT" then
+    match (dropS tok 2).splitOn ":" with
+    | [k, st, dt, code] => do
+      let (d, t) ← parseDT dt
+      pure (.upResp (← k.toNat?) (← st.toNat?) d t, ← k.toNat?, ← code.toNat?)
+    | _ => none
+  else none
+
+/-- [proxy9] kind `hist` with one `terminate during the back-off` token: the labels before it run on the machine as always;
+the trigger label, the worker up to `doRetry`'s back-off, `terminateB` (the regenerated TerminateStream program delivered in
+the back-off), the worker with `workB` (doRetry with its regenerated test for a pending local reply) until it blocks; the
+labels after it run on the machine again.  `A` = trace, ledger, done flag and the calls' return values equal the
+implementation's.  Predicate: every clause of `spec` (the accepted call counted as a TerminateStream: the client receives
+exactly the header-only local reply `code`, the exchange is finished) and — the denied request is never forwarded — after an
+accepted call no `ConnectionPool.NewStream` beyond attempt k appears in the implementation's trace (theorems
+`terminate_in_backoff_not_forwarded`, `terminate_in_backoff_accepted_iff`). -/
+def tbRun (caseToks impl : List String) : Option String :=
+  match caseToks with
+  | ["hist", cT, aT, schedT] =>
+    let toks := (schedT.splitOn ",").filter (· != "W")
+    match toks.span (fun t => (tbToken t).isNone) with
+    | (pre, tb :: post) => do
+      let c ← parseCfg cT
+      let (ar, aq) ← parseAmb aT
+      let (trig, k, code) ← tbToken tb
+      let preL ← (pre.mapM parseLabels).map List.flatten
+      let postL ← (post.mapM parseLabels).map List.flatten
+      let r0 := runSettledTm c (init ar aq) preL
+      let s1 := settleBackoff c fuel (step c r0.1 trig)
+      let s2 := terminateB c s1 code
+      let acc := s2.direct && !s1.direct
+      let s3 := settleB c fuel s2
+      let r1 := runSettledTm c s3 postL
+      let out := s!"{render r1.1} tm={renderTm (r0.2 ++ [acc] ++ r1.2)}"
+      let i ← parseImpl impl
+      let cs : Case := ⟨c, ar, aq, preL.map (·.1) ++ [trig, .terminate code] ++ postL.map (·.1), []⟩
+      let implAcc := (i.tm[r0.2.length]?).getD false
+      let notForwarded := match implTrace i with
+        | some t => !implAcc || t.all (fun e => match e with | .un j => j ≤ k | .uf j _ => j ≤ k | _ => true)
+        | none => false
+      let ok := spec cs i && notForwarded && (!implAcc || i.done)
+      pure s!"{if out == joinWith " " impl then "A" else "D"} {if ok then "S" else "V"} {out}"
+    | _ => none
+  | _ => none
+
+def hasTb (caseToks : List String) : Bool :=
+  match caseToks with
+  | ["hist", _, _, schedT] => (schedT.splitOn ",").any (fun t => (tbToken t).isSome)
+  | _ => false
+
 def run (caseToks impl : List String) : String :=
   if caseToks.head? == some "mc" then DownstreamMC.run caseToks else
   if caseToks.head? == some "upf" then upfRun caseToks impl else
+  if hasTb caseToks then (tbRun caseToks impl).getD "E E bad-tb" else
   match parseCase caseToks, parseImpl impl with
   | some cs, some i =>
     let out := renderOut cs
